@@ -28,6 +28,16 @@ Proof.
   - destruct acc as [[|a]|]; intros H; inversion H; subst; reflexivity.
 Qed.
 
+Lemma flush_output_fields2 c cb bytes n c' cb' :
+  flush_output c cb bytes = (n, c', cb') ->
+  c_la_size c' = c_la_size c /\ c_finished c' = c_finished c.
+Proof.
+  unfold flush_output. destruct (N.of_nat (length bytes) =? 0); [intros H; inversion H; subst; split; reflexivity|].
+  destruct cb as [len w ofs|acc w calls].
+  - destruct (ntake bytes (len - ofs)) as [[now later] k]. destruct later; intros H; inversion H; subst; split; reflexivity.
+  - destruct (match acc with Some 0 => false | _ => true end); intros H; inversion H; subst; split; reflexivity.
+Qed.
+
 Section D.
 Variables (data : list N) (flags wb : N).
 Hypothesis Hraw : hasf flags FLAG_RAW = true.
@@ -46,12 +56,14 @@ Lemma compress_room2 R c n input E out_len f :
             (r_status r = TOkay -> N.of_nat (length (r_out r)) < out_len ->
              c_pending (r_comp r) = [] /\
              (c_pending c <> [] \/ (r_in r = N.of_nat (length input) /\ f <> TF_FINISH))) /\
-            ((c_flush c = TF_FINISH -> f = TF_FINISH) -> r_status r = TOkay \/ r_status r = TDone).
+            ((c_flush c = TF_FINISH -> f = TF_FINISH) -> r_status r = TOkay \/ r_status r = TDone) /\
+            (r_status r = TOkay -> N.of_nat (length (r_out r)) < out_len -> c_pending c = [] -> f <> TF_NONE ->
+             c_total_bytes (r_comp r) = 0 /\ c_la_size (r_comp r) = 0 /\ c_finished (r_comp r) = false).
 Proof.
   intros Hsmall Hlf HGI HDz Hpre. pose proof HGI as [Hprev HG].
   unfold compress, compress_inner. rewrite Hprev. cbn [negb orb].
   destruct (negb (negb (c_flush c =? TF_FINISH) || (f =? TF_FINISH))) eqn:Ebad.
-  { eexists. split; [reflexivity|]. cbn [r_status]. split; [discriminate|].
+  { eexists. split; [reflexivity|]. cbn [r_status]. split; [discriminate|]. split; [|discriminate].
     intros Hff. exfalso. apply negb_true_iff, orb_false_iff in Ebad. destruct Ebad as [B1 B2].
     apply negb_false_iff, N.eqb_eq in B1. apply N.eqb_neq in B2. exact (B2 (Hff B1)). }
   set (c0 := set_flush c f).
@@ -62,8 +74,7 @@ Proof.
             exists r, Ret (CRet {| r_status := st; r_in := 0; r_out := cb_written cb'; r_comp := set_prev c' st; r_cb := cb' |})
                       = Ret (CRet r) /\
                       (r_status r = TOkay -> N.of_nat (length (r_out r)) < out_len ->
-                       c_pending (r_comp r) = [] /\
-                       (c_pending c <> [] \/ (r_in r = N.of_nat (length input) /\ f <> TF_FINISH))) /\
+                       c_pending (r_comp r) = [] /\ c_pending c <> []) /\
                       (r_status r = TOkay \/ r_status r = TDone)).
   { intros st c' cb' Hf Hcase. eexists. split; [reflexivity|]. cbn [r_status r_out r_comp r_in].
     pose proof (fob_PF out_len _ _ _ _ _ Hcb0 Hf) as ([Hok' Hfull] & _ & _).
@@ -72,23 +83,40 @@ Proof.
     intros Est Hroom. rewrite (written_ofs out_len cb' Hok') in Hroom.
     assert (Hp' : c_pending c' = []).
     { destruct (c_pending c') as [|x l]; [reflexivity|]. rewrite Hfull in Hroom by discriminate. lia. }
-    split; [cbn [set_prev mkc c_pending]; exact Hp'|]. left.
+    split; [cbn [set_prev mkc c_pending]; exact Hp'|].
     destruct Hcase as [Hfin|Hp]; [|exact Hp].
     apply fob_vout in Hf. destruct Hf as (_ & _ & _ & Est').
     change (c_finished c0) with (c_finished c) in Est'. rewrite Hfin, Hp' in Est'. cbn [andb] in Est'. congruence. }
+  assert (Hdrain' : forall st c' cb', flush_output_buffer c0 cb0 = (st, c', cb') ->
+            (c_finished c = true \/ c_pending c <> []) ->
+            exists r, Ret (CRet {| r_status := st; r_in := 0; r_out := cb_written cb'; r_comp := set_prev c' st; r_cb := cb' |})
+                      = Ret (CRet r) /\
+                      (r_status r = TOkay -> N.of_nat (length (r_out r)) < out_len ->
+                       c_pending (r_comp r) = [] /\
+                       (c_pending c <> [] \/ (r_in r = N.of_nat (length input) /\ f <> TF_FINISH))) /\
+                      ((c_flush c = TF_FINISH -> f = TF_FINISH) -> r_status r = TOkay \/ r_status r = TDone) /\
+                      (r_status r = TOkay -> N.of_nat (length (r_out r)) < out_len -> c_pending c = [] -> f <> TF_NONE ->
+                       c_total_bytes (r_comp r) = 0 /\ c_la_size (r_comp r) = 0 /\ c_finished (r_comp r) = false)).
+  { intros st c' cb' Hf Hcase. destruct (Hdrain st c' cb' Hf Hcase) as (r & Er & H1 & H2).
+    exists r. split; [exact Er|]. split; [|split; [intros _; exact H2|]].
+    - intros Est Hroom. destruct (H1 Est Hroom) as [X Y]. split; [exact X|left; exact Y].
+    - intros Est Hroom Hpc. destruct (H1 Est Hroom) as [_ Y]. contradiction. }
+  clear Hdrain.
   change (c_pending c0) with (c_pending c). change (c_finished c0) with (c_finished c).
   change (c_flags c0) with (c_flags c).
   destruct HG as [(A & HBI & HAv & Hn & Had)|[Hfin Hfw]].
   2:{ rewrite Hfin, orb_true_r.
-      destruct (flush_output_buffer c0 cb0) as [[st c'] cb'] eqn:Ef. specialize (Hdrain st c' cb'). match type of Hdrain with ?A -> _ => assert (HAx : A) by first [exact Ef | reflexivity] end. destruct (Hdrain HAx (or_introl Hfin)) as (r & Er & H1 & H2). exists r. split; [exact Er|]. split; [exact H1|intros _; exact H2]. }
+      destruct (flush_output_buffer c0 cb0) as [[st c'] cb'] eqn:Ef.
+      apply (Hdrain' st c' cb'); [first [exact Ef|reflexivity]|left; exact Hfin]. }
   pose proof (adler_lt wb Hwb A HAv) as HA.
   pose proof HBI as (Hfix & Hle & Hlp & Htb & Hls & Hd & Hcbuf & Hem).
   destruct Hfix as (F1 & F2 & F3 & F4 & F5 & F6).
   rewrite F5, orb_false_r.
   destruct (Hpre F5) as (HnE & HEt & Hin). clear Hpre.
   destruct (c_pending c) as [|p ps] eqn:Hpe; cbn [negb].
-  2:{ destruct (flush_output_buffer c0 cb0) as [[st c'] cb'] eqn:Ef. specialize (Hdrain st c' cb'). match type of Hdrain with ?A -> _ => assert (HAx : A) by first [exact Ef | reflexivity] end. assert (Hne : p :: ps <> []) by discriminate. destruct (Hdrain HAx (or_intror Hne)) as (r & Er & H1 & H2). exists r. split; [exact Er|]. split; [exact H1|intros _; exact H2]. }
-  clear Hdrain.
+  2:{ destruct (flush_output_buffer c0 cb0) as [[st c'] cb'] eqn:Ef.
+      apply (Hdrain' st c' cb'); [first [exact Ef|reflexivity]|right; discriminate]. }
+  clear Hdrain'.
   rewrite F1, Hraw. cbn [negb].
   assert (HBI0 : BI2' R A c0 cb0).
   { unfold BI2, cfix, c0, cb0.
@@ -150,40 +178,56 @@ Proof.
                else set_finished c3 (c_flush c3 =? TF_FINISH)).
     assert (Hfin4 : c_finished c4 = (f =? TF_FINISH)).
     { unfold c4. destruct (_ =? TF_FULL); cbn [set_dsize set_finished mkc c_finished]; rewrite Hfl3; reflexivity. }
+    assert (Hc4 : c_total_bytes c4 = 0 /\ c_la_size c4 = 0).
+    { pose proof (flush_output_fields _ _ _ _ _ _ Efo) as [Et3 _].
+      pose proof (flush_output_fields2 _ _ _ _ _ _ Efo) as [El3 _].
+      unfold after_block in Et3, El3. cbn [mkc c_total_bytes c_la_size] in Et3, El3.
+      apply N.eqb_eq in E1.
+      unfold c4. destruct (_ =? TF_FULL); cbn [set_dsize set_finished mkc c_total_bytes c_la_size];
+        rewrite Et3, El3, Hls2, E1; split; reflexivity. }
     clearbody c4.
     destruct (flush_output_buffer c4 cb3) as [[st c5] cb5] eqn:Ef5.
     pose proof (fob_PF out_len _ _ _ _ _ Hok3 Ef5) as ([Hok5 Hfull5] & _ & _).
+    destruct cb3 as [len3 w3 ofs3|]; [|cbn in Hok3; contradiction].
+    pose proof (fob_vout _ _ _ _ _ _ _ Ef5) as (_ & _ & Ec5 & Est5).
+    assert (Hroom5 : N.of_nat (length (cb_written cb5)) < out_len -> c_pending c5 = []).
+    { intros Hroom. rewrite (written_ofs out_len cb5 Hok5) in Hroom.
+      destruct (c_pending c5) as [|x l]; [reflexivity|]. rewrite Hfull5 in Hroom by discriminate. lia. }
     eexists. split; [reflexivity|]. cbn [r_status r_out r_comp r_in].
-    split.
-    2:{ intros _. destruct cb3 as [len3 w3 ofs3|]; [|cbn in Hok3; contradiction].
-        apply fob_vout in Ef5. destruct Ef5 as (_ & _ & _ & Est5). rewrite Est5. match goal with |- context [if ?b then TDone else TOkay] => destruct b end; auto. }
-    intros Est Hroom. rewrite (written_ofs out_len cb5 Hok5) in Hroom.
-    assert (Hp5 : c_pending c5 = []).
-    { destruct (c_pending c5) as [|x l]; [reflexivity|]. rewrite Hfull5 in Hroom by discriminate. lia. }
-    split; [cbn [set_prev mkc c_pending]; exact Hp5|]. right.
-    split; [lia|].
-    intros ->. destruct cb3 as [len3 w3 ofs3|]; [|cbn in Hok3; contradiction].
-    apply fob_vout in Ef5. destruct Ef5 as (_ & _ & _ & Est5).
-    rewrite Hfin4, Hp5 in Est5. change (TF_FINISH =? TF_FINISH) with true in Est5. cbn [andb] in Est5. congruence.
+    split; [|split].
+    + intros Est Hroom. pose proof (Hroom5 Hroom) as Hp5.
+      split; [cbn [set_prev mkc c_pending]; exact Hp5|]. right.
+      split; [lia|].
+      intros ->. rewrite Hfin4, Hp5 in Est5. change (TF_FINISH =? TF_FINISH) with true in Est5. cbn [andb] in Est5. congruence.
+    + intros _. rewrite Est5. match goal with |- context [if ?b then TDone else TOkay] => destruct b end; auto.
+    + intros Est Hroom _ _. pose proof (Hroom5 Hroom) as Hp5. destruct Hc4 as [Ht4 Hl4].
+      rewrite Ec5. cbn [set_prev set_pending mkc c_total_bytes c_la_size c_finished].
+      split; [exact Ht4|]. split; [exact Hl4|].
+      rewrite Hp5, andb_true_r in Est5. destruct (c_finished c4); [congruence|reflexivity].
   - cbn [bind].
     destruct (flush_output_buffer c2 cb1) as [[st c3] cb3] eqn:Ef3.
     pose proof (fob_PF out_len _ _ _ _ _ Hok1 Ef3) as ([Hok3 Hfull3] & Hmono3 & _).
+    assert (Hroom3 : N.of_nat (length (cb_written cb3)) < out_len ->
+                     c_pending c3 = [] /\ c_pending c1 = [] /\ N.of_nat (length input) - src = 0).
+    { intros Hroom. rewrite (written_ofs out_len cb3 Hok3) in Hroom.
+      split; [destruct (c_pending c3) as [|x l]; [reflexivity|]; rewrite Hfull3 in Hroom by discriminate; lia|].
+      destruct (c_pending c1) as [|x later] eqn:Hp1.
+      2:{ rewrite Hfull1 in Hmono3 by discriminate. lia. }
+      split; [reflexivity|]. destruct (Hend eq_refl) as [HE _]. lia. }
     eexists. split; [reflexivity|]. cbn [r_status r_out r_comp r_in].
-    split.
-    2:{ intros _. destruct cb1 as [len1 w1 ofs1|]; [|cbn in Hok1; contradiction].
-        apply fob_vout in Ef3. destruct Ef3 as (_ & _ & _ & Est3). rewrite Est3. match goal with |- context [if ?b then TDone else TOkay] => destruct b end; auto. }
-    intros Est Hroom. rewrite (written_ofs out_len cb3 Hok3) in Hroom.
-    assert (Hp3 : c_pending c3 = []).
-    { destruct (c_pending c3) as [|x l]; [reflexivity|]. rewrite Hfull3 in Hroom by discriminate. lia. }
-    split; [cbn [set_prev mkc c_pending]; exact Hp3|]. right.
-    destruct (c_pending c1) as [|x later] eqn:Hp1.
-    2:{ rewrite Hfull1 in Hmono3 by discriminate. lia. }
-    destruct (Hend eq_refl) as [HE Hz].
-    split; [lia|].
-    intros ->. rewrite (Hz ltac:(discriminate)) in Efin.
-    change (TF_FINISH =? TF_NONE) with false in Efin. change (0 =? 0) with true in Efin. cbn [negb andb] in Efin.
-    apply negb_false_iff, orb_true_iff in Efin. destruct Efin as [X|X]; [|discriminate X].
-    apply negb_true_iff, N.eqb_neq in X. lia.
+    split; [|split].
+    + intros Est Hroom. destruct (Hroom3 Hroom) as (Hp3 & Hp1 & Hil).
+      split; [cbn [set_prev mkc c_pending]; exact Hp3|]. right.
+      destruct (Hend Hp1) as [HE Hz].
+      split; [lia|].
+      intros ->. rewrite (Hz ltac:(discriminate)), Hp1, Hil in Efin. cbn in Efin. discriminate Efin.
+    + intros _. destruct cb1 as [len1 w1 ofs1|]; [|cbn in Hok1; contradiction].
+      apply fob_vout in Ef3. destruct Ef3 as (_ & _ & _ & Est3). rewrite Est3. match goal with |- context [if ?b then TDone else TOkay] => destruct b end; auto.
+    + intros Est Hroom _ Hnn. exfalso. destruct (Hroom3 Hroom) as (Hp3 & Hp1 & Hil).
+      destruct (Hend Hp1) as [HE Hz].
+      rewrite (Hz Hnn), Hp1, Hil in Efin.
+      replace (f =? TF_NONE) with false in Efin by (symmetry; apply N.eqb_neq; exact Hnn).
+      cbn in Efin. discriminate Efin.
 Qed.
 
 Notation DGI' := (DGI data flags wb).
@@ -199,7 +243,7 @@ Lemma deflate_turn_step R n E f s s' :
 Proof.
   intros Hf [HG Hin] HDz Hsmall. unfold deflate_turn.
   destruct (legal_mz_td f Hf) as [Hlf Htd]. rewrite Htd in *.
-  destruct (compress_room2 _ _ _ (ds_in s) E (ds_room s) f Hsmall Hlf HG HDz Hin) as (r & Er & Hroom & _).
+  destruct (compress_room2 _ _ _ (ds_in s) E (ds_room s) f Hsmall Hlf HG HDz Hin) as (r & Er & Hroom & _ & _).
   rewrite Er. cbv zeta.
   destruct (r_status r) eqn:Est; try discriminate.
   destruct (ds_room s - N.of_nat (length (r_out r)) =? 0) eqn:Eroom; [discriminate|].
@@ -224,7 +268,7 @@ Lemma deflate_turn_ret R n E f s :
 Proof.
   intros Hf [HG Hin] HDz Hsmall. unfold deflate_turn.
   destruct (legal_mz_td f Hf) as [Hlf Htd]. rewrite Htd in *.
-  destruct (compress_room2 _ _ _ (ds_in s) E (ds_room s) f Hsmall Hlf HG HDz Hin) as (r & Er & _ & _).
+  destruct (compress_room2 _ _ _ (ds_in s) E (ds_room s) f Hsmall Hlf HG HDz Hin) as (r & Er & _ & _ & _).
   rewrite Er. cbv zeta.
   destruct (r_status r); try exact I.
   destruct (_ =? 0); [exact I|].
@@ -323,7 +367,7 @@ Proof.
   intros [HG Hin] HDz Hsmall HJ. unfold deflate_turn.
   change (tdflush_of_mz 4) with 4.
   assert (Hlf : legal_flush 4) by (unfold legal_flush; cbn; tauto).
-  destruct (compress_room2 _ _ _ (ds_in s) E (ds_room s) 4 Hsmall Hlf HG HDz Hin) as (r & Er & _ & Hst).
+  destruct (compress_room2 _ _ _ (ds_in s) E (ds_room s) 4 Hsmall Hlf HG HDz Hin) as (r & Er & _ & Hst & _).
   pose proof (compress_counts _ _ _ _ _ Er) as [_ Hrout].
   rewrite Er. cbv zeta.
   specialize (Hst (fun _ => eq_refl)).
